@@ -143,7 +143,13 @@ def main():
             # duplicates of one molecule sequenced on different lanes / flowcells (different read groups)
             (L(('chr1', 250_000, ['pair', 'dup_lane', 'single'])), False),
             (L(('chrM', 2500, ['single', 'pair', 'dup_lane', 'dup_lane']), ('chr1', 100_000, ['pair', 'dup_lane']), star=1), False),
+            # a fragment whose UMI is within distance 1 of TWO buffered molecules of its cell and cut site
+            (L(('chr1', 250_000, ['umi_bridge', 'single']), ('chrM', 2500, ['umi_bridge'])), False),
+            # both mates in the file but delivered one by one: R2 mapped / R1 unmapped, mates on different contigs, both unmapped
+            (L(('chr1', 250_000, ['half_r1u', 'cross', 'pair']), ('chrM', 2500, ['single', 'unmapped_placed_pair', 'cross']),
+               ('chr2', 100_000, ['half', 'pair_rev'])), False),
         ]
+        directed[-1][0]['star'] = ['unplaced_pair', 'unplaced_single']
         for k, (lay, nr) in enumerate(directed):
             for method in (['nla', 'chic'] if not nr else ['nla']):
                 bs = rng.randrange(1 << 30)
